@@ -50,3 +50,8 @@ PROPS["C04"] = dict(pkg="c04", shards=16, level="exploration",
     level_text="Exploration: generated schemas of every kind x hostile values from the decoder domain and from arbitrary Go values substituted at schema-directed positions, genuine native values damaged by reflection, and deep nesting; every operation (Unserialize, data-mode ValidateCompatibility, Validate, Serialize) runs in a supervised worker so that panics, stack exhaustion and hangs are observed and attributed.",
     level_note="Cyclic Go values are excluded (no finite description); depth is bounded by what the decoders can produce (10000); a hang is only reported after a second attempt in a fresh worker with three times the deadline; one recorded known finding (single-property self-referential object + shorthand) is excluded from generation and exercised by a dedicated case.",
     cap_s={"quick": 900, "thorough": 3000})
+
+PROPS["C17"] = dict(pkg="c17", shards=16, level="exploration",
+    technique="property-based testing (rapid) with exhaustive single-fault injection per generated input; oracle = the injected fault's known path vs the ConstraintError path (errors.As), premise checked by the reference interpreter",
+    level_text="Exploration: generated nested schemas and valid inputs; for each input every applicable single corruption (wrong type per leaf, bounds, enum, pattern, sizes, bad map key, undeclared key, missing required) is applied one at a time and the returned error must be a ConstraintError whose path leads to the corrupted element, for Unserialize and (where expressible natively) Validate.",
+    level_note="Only single-fault inputs are judged (the reference interpreter confirms base accepted / corrupted rejected); path segments are compared after stripping the SDK's [i] / [k] / {k} decoration and {oneof[..]} markers; for an undeclared key the object's path with the key named in the message is accepted; inputs use the canonical representation (no single-property shorthand).")
